@@ -36,6 +36,36 @@ pub fn run_sgv(args: &[&str], cwd: &str, stdin: Option<&str>, timeout_s: u32, en
   }
 }
 
+/// like run_sgv, but nobody reads the child's stdout for the first `delay_ms`: the printing side of the CLI
+/// stalls on a full pipe while the producing side keeps going
+pub fn run_sgv_slow_reader(args: &[&str], cwd: &str, timeout_s: u32, env: &[(&str, &str)], delay_ms: u64) -> CliOut {
+  use std::io::Read;
+  let mut cmd = Command::new("timeout");
+  cmd.arg("-k").arg("2").arg(timeout_s.to_string()).arg(sgv_path());
+  cmd.args(args).current_dir(cwd).stdout(Stdio::piped()).stderr(Stdio::piped()).stdin(Stdio::null());
+  cmd.env("NO_COLOR", "1");
+  for (k, v) in env {
+    cmd.env(k, v);
+  }
+  let mut child = cmd.spawn().expect("spawn sgv");
+  let mut so = child.stdout.take().unwrap();
+  let mut se = child.stderr.take().unwrap();
+  let t_out = std::thread::spawn(move || {
+    std::thread::sleep(std::time::Duration::from_millis(delay_ms));
+    let mut b = vec![];
+    let _ = so.read_to_end(&mut b);
+    b
+  });
+  let t_err = std::thread::spawn(move || {
+    let mut b = vec![];
+    let _ = se.read_to_end(&mut b);
+    b
+  });
+  let status = child.wait().expect("wait sgv");
+  let (o, e) = (t_out.join().unwrap_or_default(), t_err.join().unwrap_or_default());
+  CliOut { code: status.code().unwrap_or(-1), stdout: String::from_utf8_lossy(&o).to_string(), stderr: String::from_utf8_lossy(&e).to_string() }
+}
+
 /// parse --json=stream output into JSON values (one per line)
 pub fn json_lines(s: &str) -> Vec<Value> {
   s.lines().filter(|l| !l.trim().is_empty()).filter_map(|l| serde_json::from_str(l).ok()).collect()
